@@ -25,7 +25,7 @@ import (
 // Claimed for the facets that involve goroutines, peers and running tasks (DESIGN.md 7 C05).
 
 type c05Scenario struct {
-	Mode   string   `json:"mode"` // define | json | vars | runtime | peer
+	Mode   string   `json:"mode"`               // define | json | vars | runtime | peer
 	Doc    string   `json:"document,omitempty"` // vars mode: the request body; json mode: the mutation applied to the pipeline JSON
 	Script string   `json:"script"`
 	Lambda string   `json:"lambda,omitempty"`
@@ -46,7 +46,28 @@ var c05Corpus = []string{
 	"batch\n    |query('SELECT mean(v) FROM \"db\".\"rp\".\"m\"')\n        .period(10s)\n        .every(5s)\n        .groupBy(time(1s), 'host')\n        .fill(0)\n    |top(3, 'mean', 'host')\n    |log()\n",
 }
 
+// node chains whose numeric properties are filled with boundary values ({i} integer, {d} duration, {f} float): whatever the
+// node API accepts must then survive data
+var c05Params = []string{
+	"|alert().crit(lambda: \"v\" > 5).history({i}).topic('t5')",
+	"|alert().crit(lambda: \"v\" > 5).history({i}).flapping(0.1, 0.9).topic('t5')",
+	"|alert().crit(lambda: \"v\" > 5).stateChangesOnly({d}).topic('t5')",
+	"|sample({i})", "|sample({d})",
+	"|window().period({d}).every({d})", "|window().periodCount({i}).everyCount({i})", "|window().period(2s).every({d}).align()", "|window().period({d}).every(1s).fillPeriod()",
+	"|derivative('a').unit({d})", "|stateDuration(lambda: \"v\" > 5).unit({d})", "|elapsed('a', {d})", "|shift({d})",
+	"|window().period(2s).every(2s)|top({i}, 'a')", "|window().period(2s).every(2s)|bottom({i}, 'a')", "|window().period(2s).every(2s)|percentile('a', {f})",
+	"|window().period(2s).every(2s)|movingAverage('a', {i})", "|window().period(3s).every(3s)|holtWinters('a', {i}, {i}, {d})", "|window().period(3s).every(3s)|holtWintersWithFit('a', {i}, {i}, {d})",
+	"|window().period(2s).every(2s)|sample({i})", "|window().period(2s).every(2s)|elapsed('a', {d})", "|window().period(2s).every(2s)|difference('a')|derivative('difference').unit({d})",
+	"|barrier().idle({d})", "|barrier().period({d})", "|stats({d})", "|deadman({f}, {d})",
+	"|combine(lambda: TRUE, lambda: TRUE).as('x', 'y').max({i})", "|combine(lambda: TRUE, lambda: TRUE).as('x', 'y').tolerance({d})",
+	"|flatten().on('t').tolerance({d})", "|default().tag('t', 'x')|flatten().on('t').tolerance({d})",
+	"|influxDBOut().database('db').retentionPolicy('rp').buffer({i})", "|influxDBOut().database('db').retentionPolicy('rp').flushInterval({d})",
+	"|eval(lambda: \"a\" + 1).as('r').keep('nope')", "|groupBy('host')|window().period({d}).every({d})", "|window().period(2s).every(2s)|mean('a')|window().periodCount({i})",
+	"|stateCount(lambda: \"v\" > 5)|window().everyCount({i}).periodCount(2)", "|changeDetect('a')|sample({i})",
+}
+
 var c05Lambdas = []string{
+	"\"a\" + \"b\" > 0", "\"a\" * \"b\" != 7", "(\"a\" - \"b\") / 3 >= 0",
 	"\"a\" / \"b\" > 0", "\"a\" % \"b\" == 0", "strSubstring(\"s\", 2, 1) == 'x'", "strSubstring(\"s\", 0, 100) == 'x'", "\"v\" > 5",
 	"int(\"f\") / \"b\" > 1", "strLength(\"s\") / \"b\" > 1", "duration(\"a\", 1s) / \"b\" > 1s", "abs(\"a\") % \"b\" == 1", "strIndex(\"s\", 'z') % \"b\" == 0",
 	"strSubstring(\"s\", 0, 60) == 'x'", "strSubstring(\"s\", 30, 45) =~ /x/", "strLength(\"s\") > 3 AND strSubstring(\"s\", 1, strLength(\"s\")) != ''",
@@ -56,7 +77,7 @@ var c05Lambdas = []string{
 
 func c05Gen(c *Ctx) *c05Scenario {
 	g := c.G
-	sc := &c05Scenario{Mode: []string{"define", "define", "runtime", "runtime", "peer", "json", "vars"}[g.Intn(7)]}
+	sc := &c05Scenario{Mode: []string{"define", "define", "runtime", "runtime", "runtime", "peer", "json", "vars"}[g.Intn(8)]}
 	switch sc.Mode {
 	case "json":
 		// a valid script; its pipeline is serialised to JSON, the JSON is mutated (runC05) and offered to Pipeline.Unmarshal
@@ -130,8 +151,21 @@ func c05Gen(c *Ctx) *c05Scenario {
 		sc.Mut = strings.Join(muts, ", ")
 	case "runtime":
 		sc.Lambda = c05Lambdas[g.Intn(len(c05Lambdas))]
-		sc.Node = []string{"where", "alert", "stateCount", "from", "eval", "stateDuration", "derivative", "eval+where"}[g.Intn(8)]
+		sc.Node = []string{"where", "alert", "stateCount", "from", "eval", "stateDuration", "derivative", "eval+where", "params", "params", "params", "params"}[g.Intn(12)]
 		switch sc.Node {
+		case "params":
+			chain := c05Params[g.Intn(len(c05Params))]
+			for strings.Contains(chain, "{i}") {
+				chain = strings.Replace(chain, "{i}", []string{"0", "-1", "1", "-9223372036854775808", "9223372036854775807", "2"}[g.Intn(6)], 1)
+			}
+			for strings.Contains(chain, "{d}") {
+				chain = strings.Replace(chain, "{d}", []string{"0s", "-1s", "1ns", "-1ns", "1s", "2562047h"}[g.Intn(6)], 1)
+			}
+			for strings.Contains(chain, "{f}") {
+				chain = strings.Replace(chain, "{f}", []string{"0.0", "-1.0", "100.0", "100.5", "50.0", "179769313486231570000000000000000000000000000000000000000000000000000000000000000000000000000000000000000000000000000000000000000000000000000000000000000000000000000000000000000000000000000000000000000000000000000000000000000000000000000000000000000000000000000000000000000000000000000000000000000.0"}[g.Intn(6)], 1)
+			}
+			sc.Lambda = chain
+			sc.Script = "stream\n    |from().measurement('m')\n    " + chain + "\n    |log().prefix('A')\n"
 		case "where":
 			sc.Script = fmt.Sprintf("stream\n    |from().measurement('m')\n    |where(lambda: %s)\n    |log().prefix('A')\n", sc.Lambda)
 		case "alert":
@@ -149,9 +183,20 @@ func c05Gen(c *Ctx) *c05Scenario {
 		default:
 			sc.Script = fmt.Sprintf("stream\n    |from().measurement('m')\n    |eval(lambda: \"a\" - \"a\").as('b').keep()\n    |where(lambda: %s)\n    |log().prefix('A')\n", sc.Lambda)
 		}
-		sc.Bad = []string{"b=0i", "a=-9223372036854775808i,b=-1i", "s=\"\"", "a=\"str\",b=\"str\"", "f=0,b=0i", "b=0", "a=1i", "s=\"" + strings.Repeat("日", 40) + "\"", "s=\"" + strings.Repeat("é", 33) + "x\""}[g.Intn(9)]
+		sc.Bad = []string{"a=1.5,b=2.5", "b=0i", "a=-9223372036854775808i,b=-1i", "s=\"\"", "a=\"str\",b=\"str\"", "f=0,b=0i", "b=0", "a=1i", "s=\"" + strings.Repeat("日", 40) + "\"", "s=\"" + strings.Repeat("é", 33) + "x\""}[g.Intn(10)]
+		if strings.HasPrefix(sc.Lambda, "\"a\" + ") || strings.HasPrefix(sc.Lambda, "\"a\" * ") || strings.HasPrefix(sc.Lambda, "(\"a\" - ") {
+			// two dynamic operands: a point in which both have another (valid) type
+			sc.Bad = []string{"a=1.5,b=2.5", "a=1.5,b=2.5", "a=\"x\",b=\"y\"", "a=1.5"}[g.Intn(4)]
+		}
 		good := "m a=6i,b=3i,f=2.5,s=\"abcdef\",v=7.0"
 		sc.Lines = []string{good + " 1000000000", "m " + c05Bad(sc.Bad) + " 2000000000", good + " 3000000000", "m " + c05Bad(sc.Bad) + " 3000000000", good + " 4000000000"}
+		if sc.Node == "params" {
+			sc.Bad = ""
+			sc.Lines = nil
+			for i := 1; i <= 8; i++ {
+				sc.Lines = append(sc.Lines, fmt.Sprintf("m,host=h%d a=%di,b=3i,f=2.5,s=\"abcdef\",v=%d.0 %d", i%2, i, 3+i, i*1000000000))
+			}
+		}
 	default:
 		sc.Peer = []string{"echo", "garbage", "wrongtype", "oversize", "halfframe", "empty", "end-without-begin", "close-after-init", "close-after-info", "silent", "duration-field", "begin-huge"}[g.Intn(12)]
 		sc.Script = "stream\n    |from().measurement('m')\n    @echo()\n    |log().prefix('A')\n"
@@ -399,6 +444,10 @@ func runC05(c *Ctx) Verdict {
 	delete(cfg.Knobs, "DefaultEventBufferSize")
 	sc.Config = fmt.Sprintf("%v p=%.2f pool=%d", cfg.Strategy, cfg.SwitchProb, cfg.PoolMode)
 	shape := map[string]interface{}{"mode": sc.Mode, "node": sc.Node, "peer": sc.Peer}
+	if sc.Node == "params" {
+		// a count or size of 2^63-1: the node allocates what the script asks for
+		shape["size_argument_maxint"] = strings.Contains(sc.Lambda, "9223372036854775807")
+	}
 	var verdict Verdict
 	var leaked []simrt.ParkedInfo
 	var d *harness.Daemon
@@ -514,8 +563,8 @@ func runC05(c *Ctx) Verdict {
 				verdict = Fail("harness/setup", "write %q rejected: %d", l, code)
 				return
 			}
-			if sc.Mode == "peer" {
-				// a running UDF server keeps arming keepalive timers, so the system is never idle: wait on the clock
+			if sc.Mode == "peer" || strings.Contains(sc.Lambda, "barrier(") {
+				// a running UDF server keeps arming keepalive timers (an idle barrier its timer), so the system is never idle: wait on the clock
 				time.Sleep(200 * time.Millisecond)
 			} else {
 				simrt.WaitIdle()
@@ -530,7 +579,7 @@ func runC05(c *Ctx) Verdict {
 		d.TM.StopTask("A")
 		done()
 		stopped = true
-		if sc.Mode == "peer" {
+		if sc.Mode == "peer" || strings.Contains(sc.Lambda, "barrier(") {
 			time.Sleep(time.Second)
 		} else {
 			simrt.WaitIdle()
@@ -578,6 +627,9 @@ func runC05(c *Ctx) Verdict {
 		obs := d.Sinks.Get("A")
 		first, last := false, false
 		for _, o := range obs {
+			if o.Copy == nil {
+				continue // a batch (the parameterised chains may end in one)
+			}
 			if o.Copy.TimeNs == 1000000000 {
 				first = true
 			}
@@ -585,7 +637,7 @@ func runC05(c *Ctx) Verdict {
 				last = true
 			}
 		}
-		stateful := sc.Node == "stateCount" || sc.Node == "stateDuration" || sc.Node == "derivative" || strings.Contains(sc.Lambda, "sigma")
+		stateful := sc.Node == "stateCount" || sc.Node == "stateDuration" || sc.Node == "derivative" || strings.Contains(sc.Lambda, "sigma") || sc.Node == "params"
 		if first && !last && !stateful {
 			v := Fail("task-killed-by-point", "the first good point reached task A's sink, the identical good point after the bad one (%s) did not: the task stopped processing. node errors: %v", sc.Bad, firstN(d.Sinks.Errs, 3))
 			v.Shape = shape
